@@ -146,7 +146,7 @@ class Report:
         else:
             e["count"] += 1
             # prefer structurally smaller witnesses
-            if kind == "config" and _size(witness) < _size(e["witness"]):
+            if _size(witness) < _size(e["witness"]):
                 e["witness"], e["detail"] = witness, detail
 
     def sample(self, s, limit=8):
